@@ -279,3 +279,36 @@ def c11_polya_mirror(tier, rng):
              "required": "polyT coordinate of the mirrored alignment = L + 1 - polyA coordinate, found on both sides or on neither",
              "replay_call": "contracts.c_equivariance:replay_polya_mirror"} for key, (o, shape) in sorted(reps.items(), key=str)]
     return {"cases": n, "bound": "%d random alignments with A-rich ends" % n, "violations": viol, "samples": [{"seed": base}]}
+
+
+# ---- IntronGraph.is_start_internal / is_end_internal: mirrored contracts (a read end within delta of a neighbouring intron is internal) ------
+record("IGParams", {"delta": "int"})
+record("IntronGraphE", {"incoming_edges": "dict[tuple[int,int],set[tuple[int,int]]]", "outgoing_edges": "dict[tuple[int,int],set[tuple[int,int]]]",
+                        "params": "rec:IGParams"})
+native.RECORD_CLASSES["IntronGraphE"] = ("src/intron_graph.py", "IntronGraph")
+native.RECORD_CLASSES["IGParams"] = ("builtin", "namespace")
+CLASS_HOME = {"IntronGraphE": "src/intron_graph.py", "IntronGraph": "src/intron_graph.py"}
+
+
+def _gen_internal(rng, n):
+    for _ in range(n):
+        intron = (500, 600)
+        nb = {(rng.choice([-11, -12, 100, 300]), rng.choice([380, 390, 394, 395, 396, 400, 410])) for _ in range(rng.randint(0, 3))}
+        nb2 = {(rng.choice([700, 704, 705, 706, 710, 720]), rng.choice([800, 900])) for _ in range(rng.randint(0, 3))}
+        yield {"self": {"__rec__": "IntronGraphE", "incoming_edges": {intron: nb}, "outgoing_edges": {intron: nb2}, "params": {"__rec__": "IGParams", "delta": rng.choice([0, 4, 6])}},
+               "intron": intron, "read_start": rng.choice([380, 390, 394, 395, 396, 400, 401, 406, 410, 450]), "read_end": rng.choice([650, 694, 699, 700, 704, 705, 706, 710, 716, 730])}
+
+
+contract("src/intron_graph.py:IntronGraph.is_start_internal", {"self": "rec:IntronGraphE", "intron": "tuple[int,int]", "read_start": "int"},
+         returns="bool", props=["C11", "C04"], requires=["intron in self.incoming_edges", "self.params.delta >= 0"],
+         # internal = the read starts at or after the END of some preceding intron, up to delta before it
+         ensures=["result == any(inc[1] - self.params.delta <= read_start for inc in self.incoming_edges[intron])"],
+         loops={0: {"inv": ["is_internal == False", "not any(_seq0[j][1] - self.params.delta <= read_start for j in range(_k0))"]}},
+         gen=lambda rng, n: ({k: v for k, v in c.items() if k != "read_end"} for c in _gen_internal(rng, n)))
+
+contract("src/intron_graph.py:IntronGraph.is_end_internal", {"self": "rec:IntronGraphE", "intron": "tuple[int,int]", "read_end": "int"},
+         returns="bool", props=["C11", "C04"], requires=["intron in self.outgoing_edges", "self.params.delta >= 0"],
+         # the mirror image: the read ends at or before the START of some following intron, up to delta after it
+         ensures=["result == any(out[0] + self.params.delta >= read_end for out in self.outgoing_edges[intron])"],
+         loops={0: {"inv": ["is_internal == False", "not any(_seq0[j][0] + self.params.delta >= read_end for j in range(_k0))"]}},
+         gen=lambda rng, n: ({k: v for k, v in c.items() if k != "read_start"} for c in _gen_internal(rng, n)))
